@@ -76,7 +76,11 @@ func wlSource(c *Ctx, doc, addon string) ([]byte, *Doc) {
 	if err != nil {
 		return src, d
 	}
-	v.Set("$addons", &JV{K: 'a', A: []*JV{JStr(addon)}})
+	arr := &JV{K: 'a'}
+	for _, a := range strings.Split(addon, ",") {
+		arr.A = append(arr.A, JStr(a))
+	}
+	v.Set("$addons", arr)
 	return v.Encode(nil), d
 }
 
@@ -229,6 +233,14 @@ func wlItems(c *Ctx) [][2]string {
 		seenRegime[d.Regime]++
 		for _, a := range allAddons(c.Repo) {
 			out = append(out, [2]string{d.Name, a})
+		}
+		if seenRegime[d.Regime] == 1 {
+			// two addons at once, the regime-independent one first: what one writes the other may have handed out
+			for _, a := range allAddons(c.Repo) {
+				if !strings.HasPrefix(a, "eu-") {
+					out = append(out, [2]string{d.Name, "eu-en16931-v2017," + a})
+				}
+			}
 		}
 	}
 	return out
